@@ -265,6 +265,12 @@ def check_config(ctx, F, tag, text, lists):
         ctx.ob("C07.R2.width-range", fn + tag, loc(b.raw["span"]), ok, "guard-dominance", "IntVector built only under width != 0 and width <= 64: %s" % ok)
 
     # ---------------- R3 zero padding / fillers
+    # the documented length of `high`: ones + ceil(universe / 2^w) (borrowed: C06.R5)
+    import c06
+    c06.check_sparse_bucket_count(ctx, F, tag, "C07.R3.sparse-bucket-count")
+    # "both directions": what the encoder may write (any usize as units of 3 data bits) the decoder reads in full
+    import rltables
+    rltables.check_decode_reaches_every_value(ctx, F, tag, "C07.R3.rl")
     fb = F.body("rl_vector::RLBuilder::flush")
     rs = [t for _, t in fb.calls() if callee_name(t).endswith("Resize>::resize") and self_path(fb.term_of_operand(t["args"][0])) == ["data"]]
     need(text, r"we pad the block with `0` values", "block padding")
